@@ -4,16 +4,82 @@ import os
 from ..gen import dk, hash_by_name
 
 
+PATHS = {}
+
+
 def make_bloom(ctx, kind, est, fpr, hname, tag):
     from probables import BloomFilter, BloomFilterOnDisk, CountingBloomFilter
 
     hf = hash_by_name(hname)
     if kind == "ondisk":
         d = ctx.tmpdir()
-        return BloomFilterOnDisk(os.path.join(d, tag + ".blm"), est, fpr, hash_function=hf)
+        o = BloomFilterOnDisk(os.path.join(d, tag + ".blm"), est, fpr, hash_function=hf)
+        PATHS[id(o)] = os.path.join(d, tag + ".blm")
+        return o
     if kind == "counting":
         return CountingBloomFilter(est, fpr, hash_function=hf)
     return BloomFilter(est, fpr, hash_function=hf)
+
+
+def same_geometry_rate(est, fpr):
+    """another nominal false-positive rate that derives exactly the same (number_bits, number_hashes) for this est_elements,
+    or None: two sizings of one geometry are compatible operands by the library's own rule (bits, hashes, probe hashes)"""
+    import struct
+    from probables import BloomFilter
+
+    try:
+        ref = BloomFilter(est, fpr)
+    except Exception:  # noqa
+        return None
+    for f in (1 - 1e-4, 1 + 1e-4, 1 - 1e-5, 1 + 1e-5, 1 - 2e-6, 1 + 2e-6, 1 - 3e-7):
+        p2 = fpr * f
+        if not 0 < p2 < 1 or struct.pack("f", p2) == struct.pack("f", fpr):
+            continue
+        try:
+            o = BloomFilter(est, p2)
+        except Exception:  # noqa
+            continue
+        if (o.number_bits, o.number_hashes) == (ref.number_bits, ref.number_hashes) and o.false_positive_rate != ref.false_positive_rate:
+            return p2
+    return None
+
+
+OPERAND_VARIANTS = ["same", "same", "same", "reload", "hex", "file_ondisk", "zero", "handle2"]
+
+
+def second_handle(ctx, obj, kind, hname):
+    """a second live handle on an on-disk operand's file, opened BEFORE anything is added through the first one: it sees the same
+    bits (shared mapping) while its own element counter stays where it was"""
+    from probables import BloomFilterOnDisk
+
+    if kind != "ondisk":
+        return None
+    return BloomFilterOnDisk(PATHS[id(obj)], hash_function=hash_by_name(hname))
+
+
+def operand_variant(ctx, obj, kind, mode, hname, tag):
+    """the same filter as it reaches a set operation in real use: reloaded from bytes / hex, exported to a file and reopened as an
+    on-disk filter (element counter from the footer - 0 for a product whose estimate rounds to 0), or with its documented settable
+    element counter assigned 0.  Returns (operand, kind, [objects to close])"""
+    from probables import BloomFilter, BloomFilterOnDisk, CountingBloomFilter
+
+    hf = hash_by_name(hname)
+    if mode == "reload":
+        if kind == "counting":
+            return CountingBloomFilter.frombytes(bytes(obj), hash_function=hf), kind, []
+        return BloomFilter.frombytes(bytes(obj), hash_function=hf), "bloom", []
+    if mode == "hex" and kind != "ondisk":
+        K = CountingBloomFilter if kind == "counting" else BloomFilter
+        return K(hex_string=obj.export_hex(), hash_function=hf), kind, []
+    if mode == "file_ondisk" and kind != "counting":
+        path = os.path.join(ctx.tmpdir(), tag + "-v.blm")
+        obj.export(path)
+        new = BloomFilterOnDisk(path, hash_function=hf)
+        return new, "ondisk", [new]
+    if mode == "zero":
+        obj.elements_added = 0
+        return obj, kind, []
+    return obj, kind, []
 
 
 def make_cms(w, d, hname):
